@@ -583,6 +583,26 @@ def _harmless_degree_guard(ka, st):
     return True
 
 
+def _emptiness_guard(st):
+    """`if D * P == 0:` / `if D == 0:` / `if x_data.size == 0:` with a body that returns / raises: the guard separates arrays without any
+    coefficient from the rest; for every polynomial (D >= 1, P >= 1) it is false, so no coefficient depends on it"""
+    t = st.test
+    if not (isinstance(t, ast.Compare) and len(t.ops) == 1 and isinstance(t.ops[0], ast.Eq) and isinstance(t.comparators[0], ast.Constant)
+            and t.comparators[0].value == 0 and not st.orelse and st.body and isinstance(st.body[-1], (ast.Return, ast.Raise))):
+        return False
+    l = t.left
+
+    def extent_product(e):
+        if isinstance(e, ast.Name):
+            return True
+        if isinstance(e, ast.Attribute) and e.attr == 'size':
+            return True
+        if isinstance(e, ast.BinOp) and isinstance(e.op, ast.Mult):
+            return extent_product(e.left) and extent_product(e.right)
+        return False
+    return extent_product(l)
+
+
 def _early_exit_guard(ka, fi, st):
     """`if D < c: return out` (also `D <= c-1`, `D == 1`) in front of the rest of the block is the guard `if D >= c:` around
     that rest: harmless under the same conditions as _harmless_degree_guard"""
@@ -746,6 +766,8 @@ def rule_grade(prop):
                     key = (fi.name, norm(st.test))
                     if all(isinstance(b, ast.Raise) for b in st.body) and not st.orelse:
                         r.ok(construct=fi.fq + ':shape-guard', sample='%s: `%s` only raises (input validation)' % (fi.qualname, norm(st.test)))
+                    elif _emptiness_guard(st):
+                        r.ok(construct=fi.fq + ':empty-guard', sample='%s: `%s` only separates empty arrays (no coefficient at all) from the rest' % (fi.qualname, norm(st.test)))
                     elif _early_exit_guard(ka, fi, st):
                         r.ok(construct=fi.fq + ':exit-guard', sample='%s: `%s` returns before statements that only define coefficients which do not exist when it holds'
                                                                      % (fi.qualname, norm(st.test)))
